@@ -84,6 +84,7 @@ LH = ("helpers,hierarchy", "abstract")
 LR = ("helpers,rules", "abstract")
 LW = ("helpers,wepages", "abstract")
 LQ = ("helpers,pagelinks1", "abstract")
+LL = ("helpers,linksiter", "abstract")
 WEPAGES = [T(LW, "Traph.get_webentity_pages_iter"), T(LW, "Traph.get_webentity_crawled_pages_iter")]
 RULES = [T(LR, "Traph.add_webentity_creation_rule_iter"), T(LR, "Traph.remove_webentity_creation_rule")]
 LI = ("helpers,cited", "abstract")
@@ -95,7 +96,7 @@ LINK_WRAPPERS = [T(LA, "LinkStore.add_outlinks"), T(LA, "LinkStore.add_inlinks")
 DEDUCTIVE = {
     "C01": node(["is_page", "is_crawled", "flag_as_page", "flag_as_crawled", "unflag_as_page", "unflag_as_crawled"]) + CHUNKS + NODE_RW + ENSURE + ADD_PAGE + COUNTS + DFS + LADDER[:1] + ADD_PAGES + BATCH + ADD_LRU,
     "C02": STORAGE[2:4] + STORAGE[6:9] + CHUNKS + NODE_RW + node(["stem", "left", "right", "child", "has_left", "has_right", "has_child", "set_left", "set_right", "set_child", "set_parent"]) + ENSURE + LRU_ITER + READERS + WINDUP + DFS + ADD_LRU,
-    "C03": node(["has_outlinks", "outlinks", "has_inlinks", "inlinks", "set_outlinks", "set_inlinks"]) + NODE_RW[:2] + LINK_NODE + ADD_LINKS + LINK_WRAPPERS + BATCH + [T(LQ, "Traph.get_page_links", 2), T(LA, "Traph.get_page_indegree"), T(LA, "Traph.get_page_outdegree"), T(LA, "Traph.get_page_degree")] + WALKS + COUNT_LINKS,
+    "C03": node(["has_outlinks", "outlinks", "has_inlinks", "inlinks", "set_outlinks", "set_inlinks"]) + NODE_RW[:2] + LINK_NODE + ADD_LINKS + LINK_WRAPPERS + BATCH + [T(LL, "Traph.links_iter"), T(LQ, "Traph.get_page_links", 2), T(LA, "Traph.get_page_indegree"), T(LA, "Traph.get_page_outdegree"), T(LA, "Traph.get_page_degree")] + WALKS + COUNT_LINKS,
     "C04": node(["has_webentity", "webentity", "set_webentity", "unset_webentity"]) + NODE_RW[:2] + EDITS + LRU_ITER + READERS[1:] + RESOLVE + LADDER[:1] + PREFIXES,
     "C05": node(["has_webentity", "is_page", "is_crawled", "has_child", "child", "has_left", "has_right"]) + READERS + RESOLVE[:1] + REALM + LADDER[:1] + WEPAGES,
     "C06": node(["has_webentity_creation_rule", "flag_as_webentity_creation_rule", "unflag_as_webentity_creation_rule"]) + READERS[1:] + [T(HE, "LRUTrieWalkHistory.rules_to_apply")] + LADDER + [T(LA, "Traph.get_potential_prefix")] + RULES,
